@@ -161,13 +161,17 @@ def probes():
         # interpreter-held values
         add("return_value", "return value held across a finally", sname,
             "fn f() { try { return %s; } finally { %s } } %s" % (X, window(), pr("f()")))
-        add("return_value", "thrown value held across a finally, caught outside", sname,
-            "fn f() { try { throw %s; } finally { %s } } try { f(); } catch e { %s }" % (X, window(), pr("e")))
+        add("return_value", "thrown error (payload) held across a finally, caught outside", sname,
+            # (locals inside a finally entered by an exception are mis-addressed: C08's business; allocate in a callee)
+            "fn w() { %s } fn f() { try { throw Error.new(%s); } finally { w(); } } try { f(); } catch e { %s }" % (window(), X, pr("e.context")))
         add("stack", "operand stack: argument evaluated before an allocating argument", sname,
             "fn two(a, b) { return a; } fn alloc() { %s return 0; } %s" % (window(), pr("two(%s, alloc())" % X)))
-        # map keys (untraced before repair a563c74)
-        add("key", "map key (only reference)", sname,
-            "fn mk() { var m = {}; m.insert(%s, 1); return m; } var c = mk(); %s for k in c.keys() { %s }" % (X, window(), pr("k")))
+        # map keys (untraced before repair a563c74); only tuples (and strings, numbers) are hashable
+        if sname == "tuple":
+            add("key", "map key (only reference)", sname,
+                "fn mk() { var m = {}; m.insert(%s, 1); return m; } var c = mk(); %s for k in c.keys() { %s }" % (X, window(), pr("k")))
+            add("key", "map key (only reference) inside a nested map value", sname,
+                'fn mk() { var m = {}; m.insert(%s, 1); return {"in": [m]}; } var c = mk(); %s for k in c.get("in")[0].keys() { %s }' % (X, window(), pr("k")))
     # key shape with hashing on use
     add("key", "map key (only reference), looked up by an equal key", "tuple",
         'fn mk() { var m = {}; m.insert((1, "ab"), 5); return m; } var c = mk(); %s print(c.get((1, "ab"))); print(c.has_key((2, "ab")));' % window())
@@ -250,7 +254,7 @@ def probe_pairs(rng, n):
     return out
 
 
-def random_program(rng, allow_known=False):
+def random_program(rng):
     """a random heap-shaped program: objects o0..on wired by random edges (depth <= 4), up to 6 fibers,
     roots dropped at random, garbage, then everything still reachable is printed"""
     n = rng.randint(3, 10)
@@ -270,7 +274,8 @@ def random_program(rng, allow_known=False):
         elif k == "tuple":
             lines.append("var o%d = (%s, %s);" % (i, ref, ref2))
         elif k == "map":
-            lines.append('var o%d = {"a": %s, %d: %s};' % (i, ref, i, ref2))
+            # a tuple that is reachable only as a key
+            lines.append('var o%d = {"a": %s, (%d, "k%d"): %s};' % (i, ref, i, i, ref2))
         elif k == "inst":
             lines.append("var o%d = P.new(%s); o%d.w = %s;" % (i, ref, i, ref2))
         elif k == "closure":
@@ -333,11 +338,16 @@ def line_of(p, opts):
     return l
 
 
+ADDR = re.compile(r"0x[0-9a-f]{6,}")
+
+
 def outcome(rec):
+    """what the property compares: printed lines, kind of result, error messages (addresses masked)"""
     k, v = rec.result
     if k == "ok":
         v = ""
-    return {"out": rec.output, "res": k, "detail": v, "msgs": rec.messages if k == "err" else [], "uaf": rec.uaf}
+    return {"out": [ADDR.sub("0xADDR", l) for l in rec.output], "res": k, "detail": v,
+            "msgs": [ADDR.sub("0xADDR", l) for l in rec.messages] if k == "err" else [], "uaf": rec.uaf}
 
 
 def window_collections(rec):
